@@ -122,7 +122,7 @@ impl OpcodeKind {
 //@ret r
 //@props C04 C16 C09
 //@contract
-    ensures r as int == ref_code(self),
+    ensures r as int == ref_code(self), // @C04 @C16
 //@endfn
 }
 
